@@ -62,7 +62,7 @@ TYPE_ERRORS = ["is invalid. (valid ops are", "cannot compare", "cannot negate", 
                "expected a mutable heap primitive", "is not a HeapPrimitive", "cannot be used on", "can only store a single item", "ret can only return", "not comparable",
                "the compiler allowed", "STACK MISMATCH", "not an Int", "not a Float", "not a BigInt", "not a Bool", "malformed byte", "this function is not a callback",
                "does not have", "already borrowed", "requires a", "expected "]
-ALLOWED = ["<Nil ", " Nil>", "stack overflow: calls are nested too deeply", "An explicit assertion failed", "unwrap of `nil`", "nil object", "out of bounds", "/ by 0", "% by 0", "with overflow", "overflow/underflow", "cannot be made into",
+ALLOWED = ["out of range integral type conversion attempted", "<Nil ", " Nil>", "stack overflow: calls are nested too deeply", "An explicit assertion failed", "unwrap of `nil`", "nil object", "out of bounds", "/ by 0", "% by 0", "with overflow", "overflow/underflow", "cannot be made into",
            "overflowed its stack", "could not fit", "is an invalid radix", "is an invalid power", "could not be used to index", "removal index", "cannot delete", "does not fit in a bigint",
            "byte index", "is out of range for a string", "is not a char boundary", "range end index", "range start index", "slice index", "to the power of"]
 
@@ -170,6 +170,18 @@ def cell_programs():
         out.append(("call|%s" % t, PRE + decl(t, "a", 0) + "\nprint \"@run\"\n" + probe("a()")))
         out.append(("cond|%s" % t, PRE + decl(t, "a", 0) + "\nprint \"@run\"\nif a {\n\tprint \"then\"\n}\n"))
         out.append(("loop-bound|%s" % t, PRE + decl(t, "a", 0) + "\nprint \"@run\"\nfrom 0 to a {\n}\nfrom 0 to 4 step a {\n\tbreak\n}\n"))
+    # results that LEAVE the range of their static kind: the program may stop with the overflow the language defines - or print a
+    # value, and then that value has the kind `typeof` says (the cells above use small witnesses and never get here)
+    EDGE = {"byte": ("0b11001000", "0b1100100"), "int": ("2147483000", "2147483000"), "bigint": ("B170141183460469231731687303715884105000", "B170141183460469231731687303715884105000")}
+    for kt, (x, y) in EDGE.items():
+        for op in ("+", "-", "*", "<<"):
+            for order in ((x, y), (y, x)):
+                src = PRE + "a: %s = %s\nb: %s = %s\nprint \"@run\"\n" % (kt, order[0], kt, order[1]) + probe("a %s b" % op) + probe("b %s a" % op)
+                out.append(("cat|edge-cell|%s|%s|%s" % (op, kt, order[0][:6]), src))
+            for oa in ("+=", "-=", "*="):
+                out.append(("cat|edge-cell|%s|%s" % (oa, kt), PRE + "a: %s = %s\nb: %s = %s\nprint \"@run\"\na %s b\n" % (kt, x, kt, y, oa) + probe("a")))
+        out.append(("cat|edge-cell|neg|%s" % kt, PRE + "a: %s = %s\nprint \"@run\"\n" % (kt, x) + probe("0 - a - a") + probe("-a")))
+        out.append(("cat|edge-cell|method|%s" % kt, PRE + "a: %s = %s\nprint \"@run\"\n" % (kt, x) + probe("a.pow(2)") + probe("a.abs()") + probe("(a + a).to_str()")))
     # values whose static type is spelled through an alias: every use that depends on the KIND of the type (index by position and by
     # key, element / entry write, call, member call, condition, loop bound, argument of a function typed with the alias or with the
     # type it stands for, either side of every operator against every other type)
